@@ -52,7 +52,7 @@ var CfgC13 = reg(&MachineCfg{
 		}
 	},
 	Gens: []interface{}{"aol", 68, "commit", 18, "crash", 3, "export", 4, "bank", 2, "walks", 3, "sim_aol", 2},
-	Bias: map[string]int{"right-signers": 94, "exec": 3, "multi": 10, "aol-owners": 2, "aol-create": 4, "aol-delw": 3, "aol-rec": 6},
+	Bias: map[string]int{"right-signers": 94, "exec": 3, "multi": 10, "aol-owners": 2, "aol-create": 4, "aol-delw": 3, "aol-rec": 6, "big-listing": 12},
 	Rule: "AOL machine on prefix-related topic names; after every commit the owner/topic counters (store and query) and complete paging walks (key- and offset-style, limits 0/1/2/3/n±1/huge, forward and reverse, with and without count_total) are compared with the model; non-trivial = an owner with >=3 topics, a writer deleted, and a multi-page walk",
 	NonTrivial: func(w *world.World) bool {
 		return lab(w, "c13 multi-page walk") > 0 && lab(w, "aol writer deleted") > 0 && lab(w, "aol topic created") >= 3
@@ -131,6 +131,10 @@ var CfgC06 = reg(&MachineCfg{
 
 var CfgC12 = reg(&MachineCfg{
 	Prop: "C12",
+	Setup: func(g *G, opt *world.Options) {
+		// every pool identifier is also used as a query argument, existing or not
+		opt.ProbeDenoms = []string{"a", "ab", "abc", "b", "A", "a/", "a b", "a-1", "a\x00b", "\x00", "a/b", "/", "zz"}
+	},
 	Gens: []interface{}{"pnft", 73, "commit", 16, "crash", 2, "export", 3, "bank", 1, "walks", 2, "sim_pnft", 3},
 	Bias: map[string]int{"right-signers": 95, "exec": 2, "adversarial-ids": 1, "by-owner": 90, "former-owner": 5, "pnft-transfer": 5},
 	Rule: "PNFT machine over adversarial identifiers (prefixes of one another, separators, invalid UTF-8, 300-byte ids, NUL while not excluded by an open finding); after every tx the decoded store equals the model, after every commit every single-item view and listing (tokens of denom, by owner, denoms paged, denoms by owner) is compared for all pool arguments; completeness: a fresh pair minted by the denom owner is accepted; non-trivial = >=2 denoms, >=3 tokens minted, a transfer and a burn",
@@ -179,7 +183,7 @@ var CfgC08 = reg(&MachineCfg{
 })
 
 var CfgC15 = reg(&MachineCfg{
-	Prop: "C15",
+	Prop: "C15", Also: agreement,
 	Gens: []interface{}{"aol", 34, "did", 22, "pnft", 26, "mixed", 10, "commit", 8},
 	Bias: map[string]int{"right-signers": 85, "exec": 0, "multi": 35, "fee-payer": 50, "right-proof": 80},
 	Rule: "transactions of 1-4 custom-module messages (any mix, succeeding or failing at any position), fees in {0, small, two denoms, more than the balance}, explicit fee payers, add-record with/without a named fee payer; oracle = per-DeliverTx balance/supply diff and all-or-nothing on the three custom stores; non-trivial = a multi-message tx that failed after the ante, or an add-record with a named fee payer",
